@@ -138,7 +138,7 @@ class Ctx:
     def time_left(self):
         return self.deadline - time.time()
 
-    def run_step(self, step, exe, args=(), timeout=None, env=None, tag=None):
+    def run_step(self, step, exe, args=(), timeout=None, env=None, tag=None, allow_fail=False, collect=True):
         """run a harness, parse protocol.  Returns dict with stats of this run."""
         if timeout is None:
             timeout = max(10, self.time_left())
@@ -151,17 +151,33 @@ class Ctx:
         if env:
             e.update(env)
         t0 = time.time()
+        timed_out = False
+        p = subprocess.Popen(cmd, stdout=subprocess.PIPE, stderr=subprocess.PIPE, text=True, env=e, errors='replace', start_new_session=True)
         try:
-            r = subprocess.run(cmd, capture_output=True, text=True, timeout=timeout, env=e, errors='replace')
-        except subprocess.TimeoutExpired as ex:
+            out, err = p.communicate(timeout=timeout)
+        except subprocess.TimeoutExpired:
+            timed_out = True
+            try:
+                os.killpg(p.pid, signal.SIGKILL)
+            except Exception:
+                p.kill()
+            out, err = p.communicate()
             self.exhaustive = False
-            self.incomplete.append('%s %s: time limit %.0fs hit; partial output discarded' % (step, ' '.join(args), timeout))
-            return None
+            self.incomplete.append('%s %s: time limit %.0fs hit; output produced until then is kept' % (step, ' '.join(args), timeout))
+
+        class R:
+            pass
+        r = R()
+        r.stdout, r.stderr, r.returncode = out or '', err or '', (0 if timed_out else p.returncode)
         dt = time.time() - t0
+        if r.returncode != 0 and allow_fail:
+            return {'_rc': r.returncode, '_stderr': r.stderr, '_stdout': r.stdout, '_wall': dt}
         if r.returncode != 0:
             sys.stderr.write('HARNESS FAILED %s rc=%d\n%s\n%s\n' % (' '.join(cmd), r.returncode, r.stdout[-2000:], r.stderr[-3000:]))
             raise FrameworkError('harness %s exited with %d' % (step, r.returncode))
         local = {}
+        if not collect:
+            return {'_rc': 0, '_stderr': r.stderr, '_stdout': r.stdout, '_wall': dt}
         for line in r.stdout.split('\n'):
             if line.startswith('STAT '):
                 _, k, v = line.split(' ', 2)
@@ -185,21 +201,33 @@ class Ctx:
                 self.uncovered.append(line[10:])
             elif line.startswith('INFO '):
                 self.infos.append(line[5:])
+        if local.get('early_stop_workers'):
+            self.exhaustive = False
+            self.incomplete.append('%s: workers stopped early after 25 crashing cases each' % step)
         local['_wall'] = dt
         local['_stdout'] = r.stdout
+        local['_stderr'] = r.stderr
+        local['_rc'] = 0
         return local
 
     def replay_case(self, step, case, extra_args=()):
         exe = self.steps[step]['binary']
         cmd = [exe, '--one', case] + list(extra_args)
+        env = harness_env()
+        env.update(getattr(self, 'replay_env', {}) or {})
         try:
-            r = subprocess.run(cmd, capture_output=True, text=True, timeout=300, errors='replace', env=harness_env())
+            r = subprocess.run(cmd, capture_output=True, text=True, timeout=300, errors='replace', env=env)
         except subprocess.TimeoutExpired:
             return ['TIMEOUT']
         sigs = []
+        mapper = getattr(self, 'sig_mapper', None)
         for line in r.stdout.split('\n'):
             if line.startswith('VIOL '):
-                sigs.append(line[5:].split('\t')[0])
+                parts = line[5:].split('\t')
+                sg = parts[0]
+                if mapper:
+                    sg = mapper(sg, parts[2] if len(parts) > 2 else '') or sg
+                sigs.append(sg)
         if r.returncode != 0 and not sigs:
             sigs.append('REPLAY-EXIT-%d' % r.returncode)
         return sigs
